@@ -832,6 +832,87 @@ Fixpoint batch_model (l : list (request * list presult)) : res findresp :=
 Definition batch_case_ok (c : batch_case) : bool :=
   let '(l, obs) := c in res_eqb findresp_eqb (batch_model l) obs.
 
+(* -- client histories: a sequence of Find / FindBatch calls on one process; the server's
+      answer to a request may be healthy, cut in mid-body (200 head with the full
+      Content-Length, then the connection closes), or a 5xx.  The client keeps no state
+      between calls: what a call returns is a function of the answers to ITS requests. -- *)
+Definition ETransport := 31.   (* the body could not be read to its end *)
+
+Inductive hfault := HNoFault | HCutBody | HStatus5xx.
+Definition served := (request * list presult * hfault)%type.
+
+Definition served_read (s : served) : res findresp :=
+  let '(q, rs, f) := s in
+  match f with
+  | HNoFault => outcome_read (handler q rs)
+  | HStatus5xx => Err EStatus
+  | HCutBody =>
+    match handler q rs with
+    | Responded r => if s_status r =? 200 then Err ETransport else client_read r
+    | Panicked => Panic 2
+    end
+  end.
+
+(* one client call: Find makes one request; FindBatch one per multihash, in order, the
+   first error aborts (the list holds the requests that were made) *)
+Fixpoint call_read (l : list served) : res findresp :=
+  match l with
+  | [] => Ok []
+  | s :: r => x <- served_read s ;; y <- call_read r ;; Ok (x ++ y)
+  end.
+
+Definition hist_results (h : list (list served)) : list (res findresp) := map call_read h.
+
+Definition hist_case := list (list served * res findresp).
+Definition hist_case_ok (h : hist_case) : bool :=
+  list_eqb (res_eqb findresp_eqb) (hist_results (map fst h)) (map snd h).
+
+(* -- ResponseWriter as an http.ResponseWriter (rwriter/response_writer.go L172-L193):
+      WriteHeader forwards every status except 200 and remembers the last one forwarded;
+      StatusCode answers 200 until then.  On the wire the FIRST forwarded status counts. -- *)
+Definition rw_status_after (calls : list N) : N :=
+  fold_left (fun st c => if c =? 200 then st else c) calls 200.
+Definition wire_status_after (calls : list N) : N :=
+  match filter (fun c => negb (c =? 200)) calls with
+  | [] => 200
+  | c :: _ => c
+  end.
+Definition wrap_case := (list N * N * N)%type.     (* WriteHeader calls, StatusCode(), status on the wire *)
+Definition wrap_case_ok (c : wrap_case) : bool :=
+  let '(calls, sc, wire) := c in
+  (rw_status_after calls =? sc) && (wire_status_after calls =? wire).
+
+(* -- MatchQueryParam(r, key, value): (present, matched).  The URL query is parsed by Go;
+      [labels] = r.URL.Query()[key], None when the key is absent. -- *)
+Definition match_query (labels : option (list bytes)) (value : bytes) : bool * bool :=
+  match labels with
+  | None => (false, false)
+  | Some ls => (true, existsb (bytes_eqb value) ls)
+  end.
+Definition mqp_case := (option (list bytes) * bytes * (bool * bool))%type.
+Definition mqp_case_ok (c : mqp_case) : bool :=
+  let '(labels, value, obs) := c in
+  let '(p, m) := match_query labels value in
+  Bool.eqb p (fst obs) && Bool.eqb m (snd obs).
+
+(* -- apierror.Error.Text(): "<status>[ <status text>][: ]<message>"; the decimal form of the
+      status and http.StatusText are data supplied by the harness -- *)
+Definition error_text (status : Z) (dec sttext : bytes) (msg : option bytes) : bytes :=
+  let parts := if Z.eqb status 0 then [] else dec ++ (if is_nil sttext then [] else 32 :: sttext) in
+  match msg with
+  | None => parts
+  | Some m => (if is_nil parts then [] else parts ++ [58; 32]) ++ m
+  end.
+Definition aetext_case := (Z * bytes * bytes * option bytes * bytes)%type.
+Definition aetext_case_ok (c : aetext_case) : bool :=
+  let '(st, dec, sttext, msg, obs) := c in bytes_eqb (error_text st dec sttext msg) obs.
+
+(* -- model.MarshalFindResponse of any FindResponse, read by UnmarshalFindResponse -- *)
+Definition mfr_case := (list (bytes * option (list presult)) * jv * res findresp)%type.
+Definition mfr_case_ok (c : mfr_case) : bool :=
+  let '(l, tree, back) := c in
+  jv_eqb (enc_findresp l) tree && res_eqb findresp_eqb (dec_findresp (enc_findresp l)) back.
+
 (* -- API errors: input, observed tree, observed decode -- *)
 Definition aerr_eqb (a b : aerr) : bool :=
   bytes_eqb (ae_msg a) (ae_msg b) && option_eqb Z.eqb (ae_status a) (ae_status b).
